@@ -205,7 +205,7 @@ def worker_main(prop, name, tier, outfile):
 def _run_replay(path):
     """run replay under the plain interpreter (no shims).  0 = mismatch reproduced."""
     env = dict(os.environ)
-    env["PYTHONPATH"] = VERIF
+    env["PYTHONPATH"] = VERIF if os.path.realpath(REPO) == "/repo" else REPO + os.pathsep + VERIF      # VERIF_REPO: replay against that tree
     env.pop("VERIF_WORLD", None)
     try:
         p = subprocess.run([PLAIN_PY, os.path.join(VERIF, "replay.py"), path], capture_output=True,
